@@ -202,8 +202,12 @@ func genHistory(id int, seed int64, p GenParams) *History {
 			continue
 		}
 		r := rng.Intn(total)
-		if r >= p.WPublish && !(r >= p.WPublish+p.WDelete+p.WDeleteMulti+p.WReopen && r < p.WPublish+p.WDelete+p.WDeleteMulti+p.WReopen+p.WGC+p.WSync) {
-			dirty = true // deletes, trims, compactions, reopen (may migrate / rewrite): not append-only
+		isReopen := r >= p.WPublish+p.WDelete+p.WDeleteMulti && r < p.WPublish+p.WDelete+p.WDeleteMulti+p.WReopen
+		if r >= p.WPublish && !isReopen && !(r >= p.WPublish+p.WDelete+p.WDeleteMulti+p.WReopen && r < p.WPublish+p.WDelete+p.WDeleteMulti+p.WReopen+p.WGC+p.WSync) {
+			dirty = true // deletes, trims, compactions: not append-only
+		}
+		if isReopen && p.Versions {
+			dirty = true // a reopen may migrate segments (rewrite)
 		}
 		switch {
 		case r < p.WPublish:
@@ -234,6 +238,14 @@ func genHistory(id int, seed int64, p GenParams) *History {
 				} else {
 					g.add(Op{Op: "rmindex", Segs: []int{rng.Intn(8), rng.Intn(8)}})
 				}
+			}
+			if p.WBackup > 0 && rng.Intn(3) == 0 { // klevdb.Backup of the closed directory (index files possibly missing)
+				op := Op{Op: "backup", Var: 1}
+				if dirty || rng.Intn(6) == 0 {
+					op.Arg = 1
+				}
+				dirty = false
+				g.add(op)
 			}
 			if p.Versions && rng.Intn(4) == 0 {
 				g.add(Op{Op: "migrate", Arg: int64(1 + rng.Intn(2))})
